@@ -37,6 +37,8 @@ CODE_HASHER = ("Crng.Tie.CodeHasher", ["getDestinationIndex_eq", "getDestination
 CODE_ORDERED = ("Crng.Tie.CodeOrdered", ["ordered_eq", "hasher_restored", "accept_iff_newer", "accepted_increasing"])
 CODE_KEEPSAFE = ("Crng.Tie.CodeKeepSafe", ["add_eq", "getAll_eq", "getAll_after_adds", "getAll_twice"])
 CODE_REWRITER = ("Crng.Tie.CodeRewriter", ["do_literal_eq", "do_not_skips", "do_regex", "do_notRe_precedence"])
+CODE_TABLEOPS = ("Crng.Tie.CodeTableOps", ["addRoute_eq", "addBlacklist_eq", "addAggregator_eq", "addRewriter_eq", "delBlacklist_eq",
+                                             "delRewriter_eq", "delAggregator_eq", "delRoute_eq", "cut_eq_eraseIdx"])
 CODE_AGG = ("Crng.Tie.CodeAgg", ["addMaybe_eq", "withheld_consumed", "no_dropraw_never_withholds"])
 
 TRUSTED_BASE = [
